@@ -6,6 +6,7 @@ package p09
 
 import (
 	"fmt"
+	mbits "math/bits"
 
 	"pgregory.net/rapid"
 )
@@ -18,8 +19,24 @@ type G struct {
 
 func (g *G) class(c string) { g.cls = append(g.cls, c) }
 
-// pct is true with probability p/100; shrinks towards false.
-func (g *G) pct(l string, p int) bool { return rapid.IntRange(0, 99).Draw(g.t, l) >= 100-p }
+// bits draws k fair coin flips. rapid's integer generators are heavily biased towards small values
+// (measured: IntRange(0,99) lands in 0..9 42 % of the time); only Bool is uniform, so calibrated
+// probabilities and uniform choices are composed from booleans. Shrinks towards 0.
+func (g *G) bits(l string, k int) int {
+	v := 0
+	for i := 0; i < k; i++ {
+		if rapid.Bool().Draw(g.t, l) {
+			v |= 1 << i
+		}
+	}
+	return v
+}
+
+// pct is true with probability ~p/100; shrinks towards false.
+func (g *G) pct(l string, p int) bool {
+	thr := (p*64 + 50) / 100
+	return g.bits(l, 6) >= 64-thr
+}
 
 // fault fires only in dirty mode.
 func (g *G) fault(l string, p int) bool {
@@ -33,9 +50,18 @@ func (g *G) fault(l string, p int) bool {
 	return false
 }
 
+// rng draws a number with rapid's own bias (small values and the bounds are favoured).
 func (g *G) rng(l string, lo, hi int) int { return rapid.IntRange(lo, hi).Draw(g.t, l) }
 
-func pick[T any](g *G, l string, xs []T) T { return rapid.SampledFrom(xs).Draw(g.t, l) }
+// idx draws an (almost) uniform index below n.
+func (g *G) idx(l string, n int) int {
+	if n <= 1 {
+		return 0
+	}
+	return g.bits(l, mbits.Len(uint(n-1))+2) % n
+}
+
+func pick[T any](g *G, l string, xs []T) T { return xs[g.idx(l, len(xs))] }
 
 // ---------- workloads ----------
 
